@@ -14,6 +14,9 @@
 (*          bus SCL is low; it may begin holding SCL low only while the    *)
 (*          initiator itself holds SCL low, and releases it whenever it    *)
 (*          likes (clock stretching at any SCL release, of any length).    *)
+(*          rst = synchronous reset of the initiator's clock domain in any *)
+(*          cycle: the operation in progress is abandoned, both lines are  *)
+(*          released in the next cycle and busy falls again.               *)
 (*   Ref  : the operation in progress and what has happened on the bus     *)
 (*          since it was accepted (bus-SCL rising edges = clock pulses,    *)
 (*          START/STOP conditions, bus SDA at each pulse).  The legal      *)
@@ -29,7 +32,8 @@ EXTENDS Integers, Sequences, Bits
 
 CONSTANTS NB,         \* data bits per transfer
           WriteData,  \* exhaustive model only: bytes offered for writing
-          MaxOps      \* exhaustive model only: operations per behaviour
+          MaxOps,     \* exhaustive model only: operations per behaviour
+          WithReset   \* exhaustive model only: explore a clock-domain reset
 
 VARIABLES op,         \* operation in progress: "none", "start", "stop", "write", "read"
           pscl, psda, \* initiator's SCL / SDA in the last cycle
@@ -40,24 +44,26 @@ VARIABLES op,         \* operation in progress: "none", "start", "stop", "write"
           rack,       \* read: the latched ack_i
           bitsB,      \* bus SDA at each clock pulse of the operation
           last,       \* the operation completed last ("none" once a new one is accepted) and its result
+          jr, nrst,   \* the previous cycle was a reset cycle; ghost: number of resets so far
           in, out,    \* inputs / outputs of the last cycle
           dbits,      \* ghost decoder: <<initiator SDA, bus SDA>> at the rising edges since the last S / P / byte
           busLog,     \* ghost decoder: events seen on the bus
           reqLog      \* ghost: operations completed, with their arguments and reported results
 
-vars == <<op, pscl, psda, ptscl, ptsda, pulses, conds, wbits, rack, bitsB, last, in, out, dbits, busLog, reqLog>>
+vars == <<op, pscl, psda, ptscl, ptsda, pulses, conds, wbits, rack, bitsB, last, jr, nrst, in, out, dbits, busLog, reqLog>>
 
 Bool == {TRUE, FALSE}
 Min2(a, b) == IF a < b THEN a ELSE b
 
 NoIn  == [start |-> FALSE, stop |-> FALSE, write |-> FALSE, read |-> FALSE, data |-> 0, ack_i |-> FALSE,
-          tscl |-> 1, tsda |-> 1]
+          tscl |-> 1, tsda |-> 1, rst |-> FALSE]
 NoOut == [scl |-> 1, sda |-> 1, busy |-> TRUE, ack_o |-> FALSE, data_o |-> 0]
 
 Init == /\ op = "none"
         /\ pscl = 1 /\ psda = 1 /\ ptscl = 1 /\ ptsda = 1
         /\ pulses = 0 /\ conds = 0 /\ wbits = <<>> /\ rack = FALSE /\ bitsB = <<>>
         /\ last = [op |-> "none", ack |-> FALSE, data |-> 0]
+        /\ jr = FALSE /\ nrst = 0
         /\ in = NoIn /\ out = NoOut
         /\ dbits = <<>> /\ busLog = <<>> /\ reqLog = <<>>
 
@@ -90,13 +96,15 @@ BitsBNow(i, o)  == IF Rise(i, o) THEN Append(bitsB, Bsda(i, o)) ELSE bitsB
 EnvViol(i, o) ==
     IF Strobes(i) > 1 THEN "env_two_strobes"
     ELSE IF Strobes(i) = 1 /\ o.busy THEN "env_strobe_while_busy"
+    ELSE IF Strobes(i) = 1 /\ i.rst THEN "env_strobe_during_reset"
     ELSE IF i.tscl = 0 /\ ptscl = 1 /\ pscl = 1 THEN "env_target_pulls_scl_while_high"
     ELSE IF i.tsda # ptsda /\ ~SclLowBoth(i, o) THEN "env_target_sda_change_while_scl_high"
     ELSE "ok"
 
 (* Ref: legal outputs *)
 LineViol(i, o) ==
-    IF op = "none" /\ (o.scl # pscl \/ o.sda # psda) THEN "line_change_without_operation"
+    IF jr THEN (IF o.scl # 1 \/ o.sda # 1 THEN "lines_not_released_after_reset" ELSE "ok")
+    ELSE IF op = "none" /\ (o.scl # pscl \/ o.sda # psda) THEN "line_change_without_operation"
     ELSE IF SdaChanged(o) /\ ~SclLowBoth(i, o) /\
             ~(/\ SclHighBoth(i, o) /\ conds = 0
               /\ \/ (op = "start" /\ o.sda = 0)                    \* requested START: SDA falls while SCL is high
@@ -130,8 +138,8 @@ Viol(i, o) == IF EnvViol(i, o) # "ok" THEN EnvViol(i, o)
 Update(i, o) ==
   LET comp == Completes(o)
       acc  == Requested(i) # "none" /\ ~o.busy
-      rise == Rise(i, o)
-      cond == CondNow(i, o)
+      rise == Rise(i, o) /\ ~jr
+      cond == CondNow(i, o) /\ ~jr               \* (lines jumping to released right after a reset are no bus event)
       db1  == IF cond THEN <<>> ELSE IF rise THEN Append(dbits, <<o.sda, Bsda(i, o)>>) ELSE dbits
       byte == Len(db1) = NB + 1
       ev   == IF cond THEN <<[e |-> IF o.sda = 0 THEN "S" ELSE "P"]>>
@@ -145,22 +153,25 @@ Update(i, o) ==
               ELSE <<[e |-> "R", data |-> o.data_o, ack |-> rack]>>
   IN /\ in' = i /\ out' = o
      /\ pscl' = o.scl /\ psda' = o.sda /\ ptscl' = i.tscl /\ ptsda' = i.tsda
-     /\ op' = IF acc THEN Requested(i) ELSE IF comp THEN "none" ELSE op
-     /\ pulses' = IF acc \/ comp THEN 0 ELSE PulsesNow(i, o)
-     /\ conds'  = IF acc \/ comp THEN 0 ELSE CondsNow(i, o)
-     /\ bitsB'  = IF acc \/ comp THEN <<>> ELSE BitsBNow(i, o)
-     /\ wbits'  = IF acc /\ i.write THEN BitsMSB(i.data, NB) ELSE wbits
-     /\ rack'   = IF acc /\ i.read THEN i.ack_i ELSE rack
-     /\ last'   = IF acc THEN [op |-> "none", ack |-> FALSE, data |-> 0]
+     /\ jr' = i.rst /\ nrst' = (IF i.rst THEN nrst + 1 ELSE nrst)
+     /\ op' = IF i.rst THEN "none" ELSE IF acc THEN Requested(i) ELSE IF comp THEN "none" ELSE op
+     /\ pulses' = IF acc \/ comp \/ i.rst THEN 0 ELSE PulsesNow(i, o)
+     /\ conds'  = IF acc \/ comp \/ i.rst THEN 0 ELSE CondsNow(i, o)
+     /\ bitsB'  = IF acc \/ comp \/ i.rst THEN <<>> ELSE BitsBNow(i, o)
+     /\ wbits'  = IF i.rst THEN <<>> ELSE IF acc /\ i.write THEN BitsMSB(i.data, NB) ELSE wbits
+     /\ rack'   = IF i.rst THEN FALSE ELSE IF acc /\ i.read THEN i.ack_i ELSE rack
+     /\ last'   = IF acc \/ i.rst THEN [op |-> "none", ack |-> FALSE, data |-> 0]
                   ELSE IF comp THEN [op |-> op, ack |-> o.ack_o, data |-> o.data_o]
                   ELSE last
-     /\ dbits'  = IF byte THEN <<>> ELSE db1
-     /\ busLog' = busLog \o ev
+     /\ dbits'  = IF byte \/ i.rst THEN <<>> ELSE db1
+     /\ busLog' = IF i.rst /\ ~comp THEN SubSeq(busLog \o ev, 1, Len(reqLog))     \* events of an abandoned operation do not count
+                  ELSE busLog \o ev
      /\ reqLog' = reqLog \o rq
 
 -----------------------------------------------------------------------------
 (* Exhaustive-model generator.  Cycles are named by their main event. *)
 Kind(i, o) == IF Requested(i) # "none" THEN "accept"
+              ELSE IF jr THEN "quiet"
               ELSE IF Completes(o) THEN "complete"
               ELSE IF SdaChanged(o) /\ SclHighBoth(i, o) THEN "condition"
               ELSE IF SdaChanged(o) THEN "sda_change"
@@ -171,7 +182,8 @@ Kind(i, o) == IF Requested(i) # "none" THEN "accept"
 
 \* candidate initiator lines / busy / request per kind of cycle (Kind and Viol are still evaluated on each)
 LinesOf(kind) ==
-    CASE kind \in {"quiet", "stretch"} -> {<<pscl, psda>>}
+    CASE jr -> {<<1, 1>>}                                               \* right after a reset: both lines released
+      [] kind \in {"quiet", "stretch", "reset"} -> {<<pscl, psda>>}
       [] kind \in {"condition", "sda_change"} -> {<<pscl, 1 - psda>>}
       [] kind = "scl_fall"    -> IF pscl = 1 THEN {<<0, psda>>} ELSE {}
       [] kind = "scl_release" -> IF pscl = 0 THEN {<<1, psda>>} ELSE {}
@@ -190,17 +202,18 @@ Cycle(kind) ==
   LET scl == ln[1]
       sda == ln[2]
       i == [start |-> rq = "start", stop |-> rq = "stop", write |-> rq = "write", read |-> rq = "read",
-            data |-> d, ack_i |-> ai, tscl |-> tscl, tsda |-> tsda]
+            data |-> d, ack_i |-> ai, tscl |-> tscl, tsda |-> tsda, rst |-> (kind = "reset")]
       o0 == [scl |-> scl, sda |-> sda, busy |-> busy, ack_o |-> out.ack_o, data_o |-> out.data_o]
       bb == BitsBNow(i, o0)
       o == IF op = "write" /\ ~busy /\ Len(bb) = NB + 1 THEN [o0 EXCEPT !.ack_o = (bb[NB + 1] = 0)]
            ELSE IF op = "read" /\ ~busy /\ Len(bb) = NB + 1 THEN [o0 EXCEPT !.data_o = ValMSB(SubSeq(bb, 1, NB))]
            ELSE o0
-  IN /\ Kind(i, o) = kind
+  IN /\ (kind = "reset" \/ Kind(i, o) = kind)
+     /\ (jr => (scl = 1 /\ sda = 1))
      /\ Viol(i, o) = "ok"
      /\ Update(i, o)
 
-Accept     == /\ Len(reqLog) + (IF op # "none" THEN 1 ELSE 0) < MaxOps /\ Cycle("accept")   \* an operation strobe is taken
+Accept     == /\ Len(reqLog) + (IF op # "none" THEN 1 ELSE 0) < MaxOps /\ (nrst = 0 \/ Len(reqLog) = 0) /\ Cycle("accept")   \* an operation strobe is taken
 Complete   == /\ op # "none"       /\ Cycle("complete")      \* busy falls
 Condition  == /\ op \in {"start", "stop"} /\ pscl = 1 /\ Cycle("condition")   \* START / STOP condition
 SdaChange  == /\ op # "none"       /\ Cycle("sda_change")    \* initiator SDA moves while SCL is low
@@ -209,7 +222,10 @@ SclRelease == /\ op # "none" /\ pscl = 0 /\ Cycle("scl_release")
 Stretch    == /\ pscl = 1          /\ Cycle("stretch")       \* the target holds SCL low after the initiator released it
 Quiet      == /\ Len(reqLog) >= 0  /\ Cycle("quiet")
 
-Next == Accept \/ Complete \/ Condition \/ SdaChange \/ SclFall \/ SclRelease \/ Stretch \/ Quiet
+\* (the exhaustive model explores one reset per behaviour, anywhere in its first operation, and one operation after it)
+Reset      == /\ WithReset /\ op # "none" /\ nrst = 0 /\ Len(reqLog) = 0 /\ Cycle("reset")
+
+Next == Reset \/ Accept \/ Complete \/ Condition \/ SdaChange \/ SclFall \/ SclRelease \/ Stretch \/ Quiet
 
 Spec == Init /\ [][Next]_vars
 
@@ -217,7 +233,7 @@ Spec == Init /\ [][Next]_vars
 (* Prop *)
 TypeOK == /\ op \in {"none", "start", "stop", "write", "read"}
           /\ pulses \in 0..(NB + 1) /\ conds \in 0..1 /\ Len(bitsB) = pulses
-          /\ Len(dbits) <= NB
+          /\ Len(dbits) <= NB /\ nrst \in 0..1000
 
 \* what a bus observer decoded is exactly what was requested, operation by operation
 Matches(r, b) ==
@@ -231,15 +247,18 @@ Matches(r, b) ==
                       /\ \A j \in 1..NB : b.ib[j] = 1                     \* SDA released while the target sends
                       /\ r.data = ValMSB(SubSeq(b.bb, 1, NB))             \* data_o = the eight bus levels, MSB first
                       /\ b.ib[NB + 1] = (IF r.ack THEN 0 ELSE 1)          \* the requested acknowledge is driven
+\* (a reset may leave a half-clocked bit on the bus -- e.g. the target still stretching when the lines are
+\*  released -- so the decoder's view is only compared up to the first reset; the step rules apply throughout)
 DecodedMatchesRequested ==
-    op = "none" => /\ Len(busLog) = Len(reqLog)
+    (op = "none" /\ nrst = 0) => /\ Len(busLog) = Len(reqLog)
                    /\ \A j \in 1..Len(reqLog) : Matches(reqLog[j], busLog[j])
                    /\ dbits = <<>>
 \* while an operation runs the decoder is never ahead by more than that operation
-DecoderInStep == Len(busLog) \in {Len(reqLog), Len(reqLog) + 1}
+DecoderInStep == nrst = 0 => Len(busLog) \in {Len(reqLog), Len(reqLog) + 1}
 \* busy is low only between operations
 BusyLowOnlyWhenIdle == [][~out'.busy => op' = "none" \/ Requested(in') # "none"]_vars
 \* a stretched clock is not counted: no pulse while the target holds SCL low
 NoPulseWhileStretched == [][in'.tscl = 0 => pulses' <= pulses]_vars
+ResetAbandons == [][in'.rst => op' = "none"]_vars
 
 =============================================================================
